@@ -59,6 +59,7 @@ type Step struct {
 	Origin  int       `json:"origin,omitempty"`
 	Host    int       `json:"host,omitempty"`
 	Panic   bool      `json:"panic,omitempty"`
+	PanicLate bool    `json:"panic_late,omitempty"` // the handler has already started its response when it panics
 	Secs    int       `json:"secs,omitempty"`
 	Keys    []KeySpec `json:"keys,omitempty"`
 	Dev     bool      `json:"dev,omitempty"`
@@ -118,6 +119,7 @@ func (H) Generate(prop string, rng *rand.Rand, tier string) any {
 			s.Host = rng.IntN(len(hosts))
 		}
 		s.Panic = prop == "C06" || rng.IntN(12) == 0
+		s.PanicLate = s.Panic && rng.IntN(3) == 0
 		s.Secs = []int{1, 60, 240, 290, 310, 360, 700}[rng.IntN(7)]
 		s.Dev = rng.IntN(2) == 0
 		if s.Kind == "setkeys" {
@@ -161,7 +163,7 @@ type obs struct {
 }
 
 var curObs *obs
-var curPanic bool
+var curPanic, curPanicLate bool
 
 func permFromPath(r *http.Request, idx int) api.Permission {
 	parts := strings.Split(strings.Trim(r.URL.Path, "/"), "/")
@@ -182,6 +184,10 @@ func (handlerT) ServeHTTP(w http.ResponseWriter, r *http.Request) {
 		}
 	}
 	if curPanic {
+		if curPanicLate {
+			w.WriteHeader(http.StatusAccepted)
+			_, _ = w.Write([]byte("partial "))
+		}
 		panic("injected handler panic")
 	}
 	w.WriteHeader(http.StatusOK)
@@ -208,6 +214,18 @@ func (H) Reset() {
 	rng.VerifSimSeed([]byte("verif deterministic seed 0123456789abcdef"))
 }
 
+// drainReports moves what is on the module error channel into the state and returns all reports so far.
+func (s *state) drainReports() []*modules.ModuleError {
+	for {
+		select {
+		case me := <-s.errCh:
+			s.reports = append(s.reports, me)
+		default:
+			return s.reports
+		}
+	}
+}
+
 func keyName(i int) string { return fmt.Sprintf("k%dsecretkey", i) }
 
 type keyModel struct {
@@ -230,6 +248,8 @@ type state struct {
 	authCalls int
 	authBehaviour Step
 	requests int
+	reports []*modules.ModuleError
+	errCh   chan *modules.ModuleError
 }
 
 func permVal(spec int) (int, bool) {
@@ -278,6 +298,8 @@ func (H) Execute(prop string, plan any, rc *simkit.RunCtx) {
 			return
 		}
 	}
+	s.errCh = make(chan *modules.ModuleError, 64)
+	modules.SetErrorReportingChannel(s.errCh)
 	h := api.VerifSimHandler()
 	for si, st := range p.Steps {
 		if rc.Failed() {
@@ -410,8 +432,9 @@ func (s *state) request(si int, st Step, h http.Handler) {
 	s.authBehaviour = st
 	ex := s.decide(st, m, acrm, reqR, reqW, origin, keyTok, cookieTok)
 	o := &obs{}
-	curObs, curPanic = o, st.Panic
+	curObs, curPanic, curPanicLate = o, st.Panic, st.PanicLate
 	before := s.authCalls
+	reportsBefore := len(s.drainReports())
 	rec := httptest.NewRecorder()
 	func() {
 		defer func() {
@@ -421,11 +444,26 @@ func (s *state) request(si int, st Step, h http.Handler) {
 		}()
 		h.ServeHTTP(rec, req)
 	}()
-	curObs, curPanic = nil, false
+	curObs, curPanic, curPanicLate = nil, false, false
 	if rc.Failed() {
 		return
 	}
 	status := rec.Code
+	if st.Panic && o.ran {
+		// C06: the panic of a request handler is reported through the module error channel, as a panic, with the value
+		reps := s.drainReports()
+		switch {
+		case len(reps) != reportsBefore+1:
+			rc.Fail("C06.api-panic-not-reported", "the panic of an API request handler was not reported through the module error channel exactly once", fmt.Sprintf("step %d (response already started: %v): %d reports", si, st.PanicLate, len(reps)-reportsBefore))
+			return
+		default:
+			me := reps[len(reps)-1]
+			if ok, _ := modules.IsPanic(me); !ok || fmt.Sprint(me.PanicValue) != "injected handler panic" || me.StackTrace == "" {
+				rc.Fail("C06.api-panic-report", "the report of a panicking API request handler does not identify itself as a panic with value and stack trace", fmt.Sprintf("step %d: %+v", si, me.Message))
+				return
+			}
+		}
+	}
 	authInvoked := s.authCalls > before
 	desc := fmt.Sprintf("step %d: %s required r=%d w=%d cred=%s origin=%q auth=%s(%d,%d) dev=%v -> status %d ran=%v; expected: %s",
 		si, methods[st.Method], reqR, reqW, st.Cred, origin, st.Auth, permPool[st.AuthR], permPool[st.AuthW], s.dev, status, o.ran, ex.why)
@@ -456,7 +494,7 @@ func (s *state) request(si int, st Step, h http.Handler) {
 			rc.Fail("C12.wrong-token", "the handler saw a permission other than what the credential grants ("+credNote+")", desc+fmt.Sprintf("; token %d/%d want %d/%d", o.token.Read, o.token.Write, ex.effR, ex.effW))
 			return
 		}
-		if st.Panic && status != 500 {
+		if st.Panic && status != 500 && !st.PanicLate {
 			rc.Fail("C06.api-panic-status", "a panicking API handler was not answered with 500", desc)
 			return
 		}
